@@ -50,6 +50,14 @@ def cases(tier, seed):
     # left-deep chains as the readers build them from n-ary rules (passed as specs: deep tuples cannot be pickled)
     for op in ('AND', 'OR'):
         yield ('CL', op, 300)
+    # conjunctions of n simple parts (256 / 257 / 300: more parts than CPython's cached small integers)
+    for n in (255, 256, 257, 258, 300):
+        yield ('CP', n)
+    # a disjunction of n conjunctions in negative position (its CNF has n short clauses; in positive
+    # position it would have 2^n, which is not what this family is about)
+    for n in (8, 16, 20, 24, 40):
+        for shape in ('not', 'implies', 'requires', 'excludes'):
+            yield ('CN', n, shape)
     for t in list(cm.arith_trees()) + list(cm.onearg_aggregate_trees()):
         yield ('C', t)
     # feature names of every class (digits only, keywords, quotes, blanks ...) as operands
@@ -80,6 +88,40 @@ def plan(tier):
     }
 
 
+def _parts_tree(n):
+    x, y, z = 'x', 'y', 'z'
+    parts = [('REQUIRES', x, y), ('EXCLUDES', y, z), ('IMPLIES', z, x), ('OR', ('NOT', x, None), z), ('IMPLIES', y, ('NOT', x, None))]
+    # balanced, so that the tree stays shallow
+    level = [parts[i % len(parts)] for i in range(n)]
+    while len(level) > 1:
+        nxt = [('AND', level[i], level[i + 1]) for i in range(0, len(level) - 1, 2)]
+        if len(level) % 2:
+            nxt.append(level[-1])
+        level = nxt
+    return level[0]
+
+
+def _neg_dnf_tree(n, shape):
+    x, y, z = 'x', 'y', 'z'
+    pairs = [('AND', x, y), ('AND', y, z), ('AND', z, x), ('AND', x, ('NOT', y, None))]
+    t = pairs[0]
+    for i in range(1, n):
+        t = ('OR', t, pairs[i % len(pairs)])
+    if shape == 'not':
+        return ('NOT', t, None)
+    return ({'implies': 'IMPLIES', 'requires': 'REQUIRES', 'excludes': 'EXCLUDES'}[shape], t, z)
+
+
+def _case_tree(case):
+    if case[0] == 'CL':
+        return _chain_tree(case[1], case[2])
+    if case[0] == 'CP':
+        return _parts_tree(case[1])
+    if case[0] == 'CN':
+        return _neg_dnf_tree(case[1], case[2])
+    return case[1]
+
+
 def _chain_tree(op, n):
     names = ('x', 'y', 'z')
     t = names[0]
@@ -91,6 +133,10 @@ def _chain_tree(op, n):
 def describe(case):
     if case[0] == 'CL':
         return 'CL:%s x %d' % (case[1], case[2])
+    if case[0] == 'CP':
+        return 'CP:balanced conjunction of %d simple parts' % case[1]
+    if case[0] == 'CN':
+        return 'CN:%s over a disjunction of %d conjunctions' % (case[2], case[1])
     return case[0] + ':' + sh.tree_str(case[1])
 
 
@@ -98,6 +144,16 @@ def reduce(case):
     if case[0] == 'CL':
         if case[2] > 20:
             yield ('CL', case[1], case[2] // 2)
+        return
+    if case[0] == 'CP':
+        if case[1] > 2:
+            yield ('CP', case[1] - 1)
+            yield ('CP', case[1] // 2)
+        return
+    if case[0] == 'CN':
+        if case[1] > 2:
+            yield ('CN', case[1] - 1, case[2])
+            yield ('CN', case[1] // 2, case[2])
         return
     seen = set()
     present = sh.tree_names(case[1])
@@ -112,7 +168,7 @@ def reduce(case):
 
 
 def normalize(case):
-    if case[0] == 'CL':
+    if case[0] in ('CL', 'CP', 'CN'):
         return case
     if any(n not in ('x', 'y', 'z') for n in sh.tree_names(case[1])):
         return case
@@ -120,7 +176,7 @@ def normalize(case):
 
 
 def nontrivial(case):
-    return case[0] == 'CL' or isinstance(case[1], tuple)
+    return case[0] in ('CL', 'CP', 'CN') or isinstance(case[1], tuple)
 
 
 def selftest():
@@ -150,7 +206,7 @@ PREDS = ('is_logical_constraint', 'is_arithmetic_constraint', 'is_aggregation_co
 
 
 def check(case):
-    tree = _chain_tree(case[1], case[2]) if case[0] == 'CL' else case[1]
+    tree = _case_tree(case)
     out = []
     bd.SHARE['on'] = case[0] == 'CD'
     try:
@@ -270,7 +326,7 @@ def check(case):
 
 
 def outcome(case):
-    if case[0] == 'CL':
+    if case[0] in ('CL', 'CP', 'CN'):
         return 'chain'
     t = case[1]
     return t[0] if isinstance(t, tuple) else 'term'
